@@ -80,6 +80,19 @@ impl Builder {
             None
         };
 
+        // The spectrum grows exponentially in the number of populations, so make sure it can be
+        // allocated at all, rather than panicking or aborting on allocation later
+        let shape = projection
+            .as_ref()
+            .map(|projection| projection.project_to().clone().into_shape())
+            .unwrap_or_else(|| sample_map.shape());
+        if Vec::<f64>::new()
+            .try_reserve_exact(shape.elements())
+            .is_err()
+        {
+            return Err(Error::SpectrumTooLarge { shape });
+        }
+
         Ok(super::Reader::new_unchecked(reader, sample_map, projection))
     }
 
@@ -152,6 +165,11 @@ pub enum Error {
     },
     /// A projection error.
     Projection(ProjectionError),
+    /// The spectrum defined by the sample mapping and projection is too large to allocate.
+    SpectrumTooLarge {
+        /// The shape of the spectrum.
+        shape: Shape,
+    },
     /// Provided sample mapping defines a sample not defined by the genotype reader.
     UnknownSample {
         /// The unknown sample.
@@ -184,6 +202,9 @@ impl fmt::Display for Error {
             }
             Error::UnknownSample { sample } => write!(f, "unknown sample {sample}"),
             Error::Projection(e) => write!(f, "{e}"),
+            Error::SpectrumTooLarge { shape } => {
+                write!(f, "cannot allocate spectrum with shape {shape}")
+            }
         }
     }
 }
